@@ -21,6 +21,34 @@ ASSUMPTIONS = ['harness/ref/refcell.py (agrees with the two hashes pinned in tes
 
 ROUTES = ['builder', 'tvm', 'plain']
 
+# what a builder may go on with after end_cell(): (name, call, the bits it appends)
+CONTINUATIONS = [
+    ('store_bits', lambda b: b.store_bits('1'), '1'),
+    ('store_uint', lambda b: b.store_uint(5, 3), '101'),
+    ('store_int', lambda b: b.store_int(-2, 3), '110'),
+    ('store_bytes', lambda b: b.store_bytes(b'\xa5'), '10100101'),
+    ('store_string', lambda b: b.store_string('x'), '01111000'),
+    ('store_bit', lambda b: b.store_bit(1), '1'),
+    ('store_bit_int', lambda b: b.store_bit_int(0), '0'),
+    ('store_bool', lambda b: b.store_bool(True), '1'),
+    ('store_coins', lambda b: b.store_coins(1), '00010000' + '0001'),
+    ('store_var_uint', lambda b: b.store_var_uint(255, 3), '001' + '11111111'),
+    ('store_var_int', lambda b: b.store_var_int(-1, 2), '01' + '11111111'),
+    ('store_address-none', lambda b: b.store_address(None), '00'),
+    ('store_maybe_ref-none', lambda b: b.store_maybe_ref(None), '0'),
+    ('store_dict-none', lambda b: b.store_dict(None), '0'),
+    ('store_snake_bytes', lambda b: b.store_snake_bytes(b'\x5a'), '01011010'),
+    ('store_snake_string', lambda b: b.store_snake_string('y'), '01111001'),
+    ('store_cell', lambda b: b.store_cell(_leafcell('1001')), '1001'),
+    ('store_slice', lambda b: b.store_slice(_leafcell('0110').begin_parse()), '0110'),
+    ('bits-extend', lambda b: b.bits.extend('01'), '01'),
+]
+
+
+def _leafcell(bits):
+    from pytoniq_core.boc.builder import Builder
+    return Builder().store_bits(bits).end_cell()
+
 
 def _std_repr(r):
     """CellRepr of an ordinary level-0 cell: d1 d2, data with the completion tag, the children's depths, the children's hashes"""
@@ -208,17 +236,20 @@ def check(case):
         ok, first = call(b.to_cell if pi % 2 else b.end_cell)            # to_cell() is the other spelling of end_cell()
         if not ok:
             return Fail('construction-raises/builder', f'{exc_sig(first)}: {first!r}')
-        more_bits = '1' if len(r.bits) < 1023 else ''
+        # the first write after end_cell() goes through a different store method from case to case (they do not all share code)
+        room = 1023 - len(r.bits)
+        cont = [c for c in CONTINUATIONS if len(c[2]) <= room]
+        cname, cfun, more_bits = cont[(k + pi + len(r.bits)) % len(cont)] if cont else ('none', None, '')
         more_ref = len(r.refs) < 4
-        ok, e = call(lambda: (b.store_bits(more_bits) if more_bits else None, b.store_ref(lib[0]) if more_ref else None))
+        ok, e = call(lambda: (cfun(b) if cfun else None, b.store_ref(lib[0]) if more_ref else None))
         if not ok:
-            return Fail('builder-reuse/store-after-end_cell-raises', f'{exc_sig(e)}: {e!r}')
+            return Fail('builder-reuse/store-after-end_cell-raises', f'{cname}: {exc_sig(e)}: {e!r}')
         ok, second = call(b.end_cell if pi % 2 else b.to_cell)
         if not ok:
             return Fail('builder-reuse/second-end_cell-raises', f'{exc_sig(second)}: {second!r}')
         f = node_problem(r, first, 'builder-reused/first-cell')
         if f:
-            return f
+            return Fail(f.signature, f'{f.detail} (the builder went on with {cname})')
         r2 = rc.RCell(r.bits + more_bits, list(r.refs) + ([cells[0]] if more_ref else []), False) if cells[0].D(0) < 1023 or not more_ref else None
         if r2 is not None:
             f = node_problem(r2, second, 'builder-reused/second-cell')
@@ -246,6 +277,29 @@ def check(case):
         stack.extend(zip(r.refs, l.refs))
     if not (parsed == lib[-1]):
         return Fail('equality/parsed-not-equal-built', '')
+    # the same bag parsed into an application's own Cell subclass (the readers take the class to build): those are cells like any
+    # other - same hashes, equal to and colliding with the plain cells of the same hash, in both directions
+    App = dag.cell_subclass(dag.TEMPLATE_BAG if len(boc) % 2 else None)
+    ok, sub = call(App.one_from_boc, boc)
+    if not ok:
+        return Fail('parse-reference-boc-raises/into-a-Cell-subclass', f'{exc_sig(sub)}: {sub!r} boc={boc.hex()[:200]}')
+    stack = [(root_r, sub)]
+    seen = set()
+    while stack:
+        r, l = stack.pop()
+        if id(r) in seen:
+            continue
+        seen.add(id(r))
+        f = node_problem(r, l, 'parsed/into-a-Cell-subclass')
+        if f:
+            return f
+        stack.extend(zip(r.refs, l.refs))
+    ok, eqs = call(lambda: (sub == lib[-1], lib[-1] == sub, sub == parsed, hash(sub) == hash(lib[-1]), len({sub, lib[-1], parsed}),
+                            len({lib[-1]: 1, sub: 2}), sub.copy() == sub, sub == sub.copy(), sub != lib[-1]))
+    if not ok:
+        return Fail('equality/raises', repr(eqs))
+    if eqs != (True, True, True, True, 1, 1, True, True, False):
+        return Fail('equality/subclass-instance-not-equal-to-plain-cell-of-the-same-hash', f'{eqs}')
     # a bag whose STORED hashes are genuine, and one whose stored hashes are wrong: a reader may refuse the second, but the
     # hash it reports for a cell is always the hash of the cell's content
     order = rc.topo([root_r])
